@@ -6,6 +6,16 @@ cd "$(dirname "$0")/.."
 import sys
 sys.path.insert(0, 'lib')
 import vlib
+import importlib, os
+os.environ.setdefault('PYTHONHASHSEED', '0')
+sys.path.insert(0, '.'); sys.path.insert(0, 'harness')
+vlib.use_repo()
+# translator-tied properties: regenerate coq/gen/* from the source before building
+for f in sorted(os.listdir('harness')):
+    if f.startswith('C') and f.endswith('.py'):
+        H = importlib.import_module('harness.' + f[:-3])
+        if hasattr(H, 'translate'):
+            print('translate', f[:-3], H.translate(vlib.REPO) is not None)
 vlib.hygiene()
 rc, out = vlib.coq_build(None, timeout=3000)
 print(out[-3000:])
